@@ -208,7 +208,7 @@ def parse_typed_value(s):
     return parse_value(ty, rest)
 
 
-def const_tree(ty, init):
+def const_tree(ty, init, structs=None):
     """the initializer of a constant global as a tree: list (array / struct members in order), Value (scalar leaf) or None
     when the text has a shape that is not understood"""
     init = init.strip()
@@ -216,11 +216,14 @@ def const_tree(ty, init):
     if init == 'zeroinitializer':
         m = re.match(r'^\[(\d+) x (.*)\]$', ty)
         if m:
-            return [const_tree(m.group(2), 'zeroinitializer') for _ in range(int(m.group(1)))]
+            return [const_tree(m.group(2), 'zeroinitializer', structs) for _ in range(int(m.group(1)))]
         if ty.startswith('{') or ty.startswith('<{'):
             inner = ty[1:-1] if ty.startswith('{') else ty[2:-2]
-            return [const_tree(t, 'zeroinitializer') for t in split_top(inner)]
+            return [const_tree(t, 'zeroinitializer', structs) for t in split_top(inner)]
         if ty.startswith('%'):
+            ftys = (structs or {}).get(ty)
+            if ftys:
+                return [const_tree(t, 'zeroinitializer', structs) for t in ftys]
             return None
         return Value('int', ty, ival=0) if re.match(r'^i\d+$', ty) else Value('null', ty)
     m = re.match(r'^c"(.*)"$', init)
@@ -232,7 +235,7 @@ def const_tree(ty, init):
         for el in split_top(init[1:-1]):
             el = el.strip()
             t, j = parse_type(el)
-            out.append(const_tree(t, el[j:]))
+            out.append(const_tree(t, el[j:], structs))
         return out
     if (init.startswith('{') and init.endswith('}')) or (init.startswith('<{') and init.endswith('}>')):
         inner = init[1:-1] if init.startswith('{') else init[2:-2]
@@ -240,7 +243,7 @@ def const_tree(ty, init):
         for el in split_top(inner):
             el = el.strip()
             t, j = parse_type(el)
-            out.append(const_tree(t, el[j:]))
+            out.append(const_tree(t, el[j:], structs))
         return out
     try:
         return parse_value(ty, init)
